@@ -323,5 +323,13 @@ M_EX = {
     "stream": M("stream", OB.ob_stream, OB.ob_stream.__doc__, ["<StreamSource<S> as EventSource>::process_events (+closure)"], "poll loop unrolled twice"),
 }
 
-PROPS["DEV"] = dict(level="proof", k=[], m=list(M_EX.values()))
+M_IO = {
+    "new": M("async_new", OB.ob_async_new, OB.ob_async_new.__doc__, ["io::Async::new"], "all paths", replay=["d5_async_adapter_registration"]),
+    "drop": M("async_drop", OB.ob_async_drop, OB.ob_async_drop.__doc__, ["<Async as Drop>::drop", "<LoopInner as IoLoopInner>::kill", "Async::into_inner"],
+              "all paths", replay=["d5_async_adapter_registration"]),
+    "io": M("async_io", OB.ob_async_io, OB.ob_async_io.__doc__, ["<Readable as Future>::poll", "<Writable as Future>::poll", "Async::poll_read",
+            "Async::poll_read_vectored", "Async::poll_write", "Async::poll_write_vectored", "Async::poll_flush"], "all paths"),
+}
+
+PROPS["DEV"] = dict(level="proof", k=[], m=list(M_IO.values()))
 
